@@ -229,7 +229,10 @@ func cabiCheck(args []string) error {
 		if rh[1] != 1 {
 			fail("canary", "memory outside a caller buffer was modified by RunSingleModel")
 		}
-		// expectation through the Go API on Go-backed arrays
+		// expectation. States given: the Go API on Go-backed arrays (one vectorised Run). initStates: each cell ALONE
+		// (its own parameter column i % sets, its own InitialiseStates(1), its own input block i % blocks) -- the
+		// specification's term for a cell whose states the library initialises itself -- so that a defect of the
+		// vectorised InitialiseStates cannot hide behind both sides using it.
 		m := sim.Catalog[name]()
 		pArr := data.ArrayFromSliceFloat64(append([]float64{}, P...), []int{npar, nsets}).(data.ND2Float64)
 		iArr := data.ArrayFromSliceFloat64(append([]float64{}, I...), []int{nis, ni, T}).(data.ND3Float64)
@@ -238,17 +241,49 @@ func cabiCheck(args []string) error {
 		var sArr data.ND2Float64
 		var eS []float64
 		pm := protect(func() {
+			if init == 1 {
+				full := sim.Catalog[name]()
+				fd := full.FindDimensions(pArr)
+				sArr = data.NewArray2DFloat64(nc, ns)
+				for c := 0; c < nc; c++ {
+					col, blk := c%nsets, c%nis
+					pc := data.NewArray2DFloat64(npar, 1)
+					for r := 0; r < npar; r++ {
+						pc.Set2(r, 0, P[r*nsets+col])
+					}
+					ic := data.NewArray3DFloat64(1, ni, T)
+					for k := 0; k < ni; k++ {
+						for t := 0; t < T; t++ {
+							ic.Set3(0, k, t, I[(blk*ni+k)*T+t])
+						}
+					}
+					mc := sim.Catalog[name]()
+					if len(fd) > 0 {
+						// table parameters are laid out for the longest table of ALL sets
+						mc.InitialiseDimensions(fd)
+					}
+					mc.ApplyParameters(pc)
+					st := mc.InitialiseStates(1)
+					oc1 := data.NewArray3DFloat64(1, no, T)
+					mc.Run(ic, st, oc1)
+					for k := 0; k < no; k++ {
+						for t := 0; t < T; t++ {
+							oArr.Set3(c, k, t, oc1.Get3(0, k, t))
+						}
+					}
+					for k := 0; k < ns && k < st.Len(1); k++ {
+						sArr.Set2(c, k, st.Get2(0, k))
+					}
+				}
+				return
+			}
 			dims := m.FindDimensions(pArr)
 			if len(dims) > 0 {
 				m.InitialiseDimensions(dims)
 			}
 			m.ApplyParameters(pArr)
-			if init == 1 {
-				sArr = m.InitialiseStates(nc)
-			} else {
-				eS = append([]float64{}, S...)
-				sArr = data.ArrayFromSliceFloat64(eS, []int{nc, ns}).(data.ND2Float64)
-			}
+			eS = append([]float64{}, S...)
+			sArr = data.ArrayFromSliceFloat64(eS, []int{nc, ns}).(data.ND2Float64)
 			m.Run(iArr, sArr, oArr)
 		})
 		if pm != "" {
